@@ -20,6 +20,7 @@ class Base {
   public function peek($k) { if ($k == 0) { return $this->pu; } if ($k == 1) { return $this->pr; } return $this->pv; }
   public function same($w) { SAME }
   public function same2($o, $w) { SAMEB }
+  public function me() { return $this; }
 }
 class Child extends Base {
   public function sub($w) { SUB }
@@ -72,7 +73,8 @@ func H_visibility() {
 	// same parent acting on a Child instance, 6 code of the declaring class acting on an instance of a
 	// SUBCLASS passed in a variable, 7 the same code inherited by and running on a subclass object, acting on
 	// an instance of the declaring class
-	site := symx.Choose("site", 8)
+	// 8 global code acting on what a method handed out with `return $this`
+	site := symx.Choose("site", 9)
 	w := symx.Int("w")
 	src := fixture
 	same, sub, sib, bro, sameB := "return 0;", "return 0;", "return 0;", "return 0;", "return 0;"
@@ -92,6 +94,8 @@ func H_visibility() {
 	case 5:
 		bro = guarded(access(kind, m, "$o")) + " return 0;"
 		main = "$o = new Child(); $s = new Bro(); $s->bro($o, $w); emit($o->peek(" + string(rune('0'+m)) + "));"
+	case 8:
+		main = "$o = new Base(); $t = $o->me(); " + guarded(access(kind, m, "$t")) + " emit($o->peek(" + string(rune('0'+m)) + "));"
 	case 6:
 		sameB = guarded(access(kind, m, "$o")) + " return 0;"
 		main = "$o = new Child(); $s = new Base(); $s->same2($o, $w); emit($o->peek(" + string(rune('0'+m)) + "));"
@@ -142,7 +146,7 @@ func H_visibility() {
 	want = append(want, sx.Obs{Kind: 'i', I: final})
 	// recorded findings (each names the exact cells it covers)
 	known, id := false, ""
-	outsider := site == 0 || site == 3 || site == 4 || (site == 5 && m == 2)
+	outsider := site == 0 || site == 3 || site == 4 || site == 8 || (site == 5 && m == 2)
 	switch {
 	case m != 0 && outsider && (kind == 3 || kind == 4):
 		known, id = true, "C07-static-visibility"
